@@ -81,7 +81,8 @@ TEXT = {
         note="Trusted: TLC/SANY/Json, Go toolchain, the harness' concretisation table and read-back.  'Each operation' "
              "is a fixed suite per module (9-14 operations touching every place a parameter is consumed), run with the "
              "update placed before it and mid-life; the htlc baseline carries one supported asset so that cross-chain "
-             "transfers exist under the baseline.  Quick tier bounds the deviations per record (coinswap 2, farm all, "
-             "token 2, service 1, htlc 1 fields) on the code side and (all, all, 3, 2, 2) in the model; thorough widens both.  "
+             "transfers exist under the baseline.  Quick tier bounds the number of fields deviating from the baseline per record: on the "
+             "code side coinswap 2, farm 2, token 2, service 1, htlc 1; in the model coinswap all, farm all, token 3, "
+             "service 2, htlc 2.  Thorough: code side all, all, 3, 2, 2; model all, all, all, 3, 3.  "
              "A nil decimal/amount makes Params.Validate itself panic (recovered; nothing stored) — logged, not a clause."),
 }
